@@ -27,7 +27,8 @@ type Drv struct {
 	R    *rng
 	S    *Sink
 	// Limit bounds the events of one goroutine in concurrent mode.
-	Limit int
+	Limit  int
+	nparse int
 }
 
 func (d *Drv) Thorough() bool { return d.Tier == "thorough" }
@@ -53,6 +54,13 @@ func (d *Drv) Do(req Ev) Ev {
 		}
 		if d.S.total >= d.Limit {
 			panic(stopDriver{})
+		}
+	}
+	if T, ok := req["T"].(string); ok && strings.HasSuffix(str(req["op"]), ".parse") {
+		// the parsers are generic over ~string | ~[]byte: every 8th request uses a named type of the same kind
+		d.nparse++
+		if d.nparse%8 == 0 {
+			req["T"] = strings.ToUpper(T)
 		}
 	}
 	if str(req["op"]) == "giant" {
